@@ -1,12 +1,30 @@
-"""Facts for C20 (outgoing requests): the constants (50, 30 s, 3.0, 30, 20 s), the per-path
-symbolic normal form of `_recalc_concurrency`, the shape of `_send_concurrent` (limiter around
-everything, wait under `timeout_after(sent_request_timeout)`, `finally` block inside the limiter and
-what it records), `connection_lost`, and fingerprints."""
-import ast
+"""Facts for C20 (outgoing requests) - BEHAVIOURAL (tools/facts/limprobe.py): obtained by running a
+real client `RPCSession` with a scripted peer under virtual time, through the public API only
+(`send_request`, `send_batch`, bytes on the transport, class attributes, `max_concurrent` of the
+outgoing limiter found by duck typing).  Nothing looks at the source text of `_recalc_concurrency`
+or `_send_concurrent`, at `_req_times`, or at the names of private helpers.
+
+* constants: sent_request_timeout, target_response_time, recalibrate_count, max_send_delay (class
+  attributes), the initial outgoing limit (read from a live client session);
+* `flowTable`: sequences of send operations (single requests and batches) answered by the peer
+  after chosen delays, for several (target_response_time, recalibrate_count): the outgoing limit
+  after every completion.  This is what `_send_concurrent`'s bookkeeping (one sample per request,
+  a batch contributing its per-request share once per member, recalibration once enough samples
+  are in, inside the limiter) and `_recalc_concurrency` (average, step bounds, rounding) compute
+  together.  Delays are chosen so that every float operation is exact and no rounding tie occurs.
+* `outcomeTable`: what a caller gets and when: silent peer -> TaskTimeout exactly
+  sent_request_timeout after the write; answer -> result at that moment; connection lost ->
+  cancellation at that moment; more callers than the limit -> the excess is written only when a
+  slot frees (write times).
+Props.lean proves that the model computes exactly these tables."""
+import asyncio
+import json
 from fractions import Fraction
 
 from . import common
-from . import limcommon as lc
+from . import limprobe as lp
+
+WALL = float(2 ** 30)      # time.time() is a wall clock far away from loop.time()
 
 
 def q(x):
@@ -14,91 +32,273 @@ def q(x):
     return f'({f.numerator} : Rat) / {f.denominator}' if f.denominator != 1 else f'({f.numerator} : Rat)'
 
 
-def _refresh_c13_facts(repo):
-    """C20's theorems reuse the C13 limiter model and theorems (Aiorpcx.C13.Props imports
-    Facts/C13.lean): regenerate that file from the same tree, exactly as `./check C13` would."""
-    import os
-    from . import c13
-    text = c13.render(c13.extract(repo))
-    verif = os.path.dirname(os.path.dirname(os.path.dirname(os.path.abspath(__file__))))
-    path = os.path.join(verif, 'lean', 'Aiorpcx', 'Facts', 'C13.lean')
-    os.makedirs(os.path.dirname(path), exist_ok=True)
-    old = open(path).read() if os.path.exists(path) else None
-    if old != text:
-        with open(path, 'w') as f:
-            f.write(text)
+def _mods(repo):
+    return {'session': common.fresh_import(repo, 'aiorpcx.session'),
+            'rawsocket': common.fresh_import(repo, 'aiorpcx.rawsocket'),
+            'framing': common.fresh_import(repo, 'aiorpcx.framing'),
+            'jsonrpc': common.fresh_import(repo, 'aiorpcx.jsonrpc'),
+            'curio': common.fresh_import(repo, 'aiorpcx.curio')}
+
+
+class WallClock:
+    def __init__(self, loop):
+        self.loop = loop
+
+    def time(self):
+        return WALL + self.loop.time()
+
+
+class Client:
+    """a live client session + scripted peer on the virtual loop"""
+
+    def __init__(self, mods, bench, attrs):
+        self.mods, self.bench = mods, bench
+        mods['session'].time = WallClock(bench.loop)
+        cls = type('C', (mods['session'].RPCSession,), dict(attrs))
+        self.proto, self.tr, self.s = bench.session(mods, cls, 'client')
+        _inc, self.lim = lp.find_limiters(self.s)
+        self.delay_of = {}
+        self.written = {}
+        self.outcome = {}
+        self.env_log = []       # what the environment did: (time, 0 call / 1 answer / 2 lose, id, count)
+        real_write = self.tr.write
+
+        def write(data):
+            real_write(data)
+            self.on_write(bytes(data))
+        self.tr.write = write
+
+    def on_write(self, data):
+        for line in data.split(b'\n'):
+            if not line.strip():
+                continue
+            msg = json.loads(line)
+            items = msg if isinstance(msg, list) else [msg]
+            key = items[0]['params'][0]
+            self.written[key] = self.bench.loop.time()
+            d = self.delay_of.get(key)
+            if d is None:
+                continue
+            rep = [{'jsonrpc': '2.0', 'result': m['params'], 'id': m['id']} for m in items if 'id' in m]
+            out = json.dumps(rep if isinstance(msg, list) else rep[0]).encode() + b'\n'
+            self.bench.loop.call_later(d, self.deliver, out, key)
+
+    def deliver(self, data, key=None):
+        if not self.tr.closing:
+            self.env_log.append((self.bench.loop.time(), 1, key, 0))
+            self.proto.data_received(data)
+
+    def start(self, key, count):
+        self.env_log.append((self.bench.loop.time(), 0, key, count))
+        return self.bench.loop.create_task(self.call(key, count))
+
+    def lose(self):
+        self.env_log.append((self.bench.loop.time(), 2, 0, 0))
+        self.tr.close()
+
+    async def call(self, key, count):
+        TaskTimeout = self.mods['curio'].TaskTimeout
+        try:
+            if count == 1:
+                await self.s.send_request('m', [key])
+            else:
+                async with self.s.send_batch() as b:
+                    for j in range(count):
+                        b.add_request('m', [key, j])
+            self.outcome[key] = (0, self.bench.loop.time())          # result
+        except TaskTimeout:
+            self.outcome[key] = (2, self.bench.loop.time())
+        except asyncio.CancelledError:
+            self.outcome[key] = (3, self.bench.loop.time())
+        except Exception:      # noqa
+            self.outcome[key] = (1, self.bench.loop.time())          # error
+
+
+def run_flow(mods, trt, recal, steps):
+    """steps: (request_count, delay) processed one after the other -> limit after each completion"""
+    saved = mods['session'].time
+    bench = lp.VBench()
+    try:
+        c = Client(mods, bench, dict(target_response_time=trt, recalibrate_count=recal,
+                                     sent_request_timeout=1000.0))
+        out = []
+        for k, (count, delay) in enumerate(steps):
+            c.delay_of[k] = delay
+            t = bench.loop.create_task(c.call(k, count))
+            bench.advance(delay + 1.0)
+            if not t.done():
+                raise RuntimeError('flow probe: call did not complete')
+            out.append(int(c.lim.max_concurrent))
+        return out
+    finally:
+        mods['session'].time = saved
+        bench.close()
+
+
+def flow_rows(mods):
+    plans = []
+    # up: instant answers -> the cap every time; down: very slow answers -> the floor every time
+    plans.append((3.0, 1, [(1, 0.0)] * 36))
+    plans.append((3.0, 1, [(1, 64.0)] * 22 + [(1, 0.0)] * 12))
+    # between the bounds (ratios with an odd denominator: no rounding tie is possible)
+    plans.append((3.0, 1, [(1, 3.25)] * 12 + [(1, 2.5)] * 12 + [(1, 3.5)] * 8))
+    plans.append((3.0, 1, [(1, 0.75)] * 6 + [(1, 3.0)] * 3 + [(1, 3.25)] * 25))
+    plans.append((0.25, 1, [(1, 0.25)] * 3 + [(1, 0.3125)] * 10 + [(1, 0.125)] * 5))
+    # several samples per recalibration; batches contribute their per-request share per member
+    plans.append((3.0, 3, [(1, 3.25), (1, 3.25), (1, 3.25), (2, 6.5), (1, 3.25), (4, 13.0), (2, 1.0), (1, 0.0),
+                           (1, 64.0), (1, 64.0), (1, 64.0), (4, 256.0), (1, 0.5), (2, 128.0), (1, 64.0)]))
+    plans.append((3.0, 5, [(2, 6.5), (4, 13.0), (1, 3.25), (1, 3.25), (1, 3.25), (1, 3.25), (1, 3.25), (1, 3.25),
+                           (3, 9.0), (3, 9.0), (1, 64.0), (1, 64.0), (1, 64.0), (1, 64.0), (1, 64.0)]))
+    plans.append((3.0, 30, [(1, 64.0)] * 29 + [(4, 256.0)] + [(1, 64.0)] * 30 + [(1, 0.0)] * 31))
+    # degenerate configurations: recalibrate every time (count 0), target_response_time 0 / negative
+    plans.append((3.0, 0, [(1, 64.0)] * 4 + [(1, 0.0)] * 3))
+    plans.append((0.0, 1, [(1, 1.0)] * 5))
+    plans.append((-1.0, 2, [(1, 1.0)] * 6))
+    rows = []
+    for trt, recal, steps in plans:
+        targets = run_flow(mods, trt, recal, steps)
+        rows.append((trt, recal, steps, targets))
+    return rows
+
+
+def flat_flow_row(r):
+    trt, recal, steps, targets = r
+    out = lp.rat_ints(trt) + [recal, len(steps)]
+    for count, delay in steps:
+        out += [count] + lp.rat_ints(delay)
+    return out + list(targets)
+
+
+def settle(c, bench, L):
+    """bring the outgoing limiter of a live session to limit L with exactly L permits in
+    circulation, through the public API only: with recalibrate_count 1, slow answers walk the
+    limit down (50, 40, 32, ... 3, 2, 1), answers taking exactly target_response_time keep it where
+    it is, and every completion above the limit retires one permit"""
+    c.s.recalibrate_count = 1
+    real_timeout = c.s.sent_request_timeout
+    c.s.sent_request_timeout = 10.0 ** 6
+    trt = c.s.target_response_time
+    start = int(c.lim.max_concurrent)
+    done = 0
+    key = 10 ** 6
+    while done < start + 5 and (int(c.lim.max_concurrent) != L or done < start - L + 1):
+        cur = int(c.lim.max_concurrent)
+        if cur < L:
+            raise RuntimeError(f'settle: limit {cur} fell below {L}')
+        delay = 64.0 * trt if cur > L else trt
+        c.delay_of[key] = delay
+        t = bench.loop.create_task(c.call(key, 1))
+        bench.advance(delay + 1.0)
+        if not t.done():
+            raise RuntimeError('settle: call did not complete')
+        key += 1
+        done += 1
+    if int(c.lim.max_concurrent) != L:
+        raise RuntimeError(f'settle: could not reach limit {L}')
+    c.s.recalibrate_count = 10 ** 6
+    c.s.sent_request_timeout = real_timeout
+    c.env_log.clear()
+    c.written.clear()
+    c.outcome.clear()
+
+
+def outcome_rows(mods):
+    """limit L, sent_request_timeout (num den), then what the environment did in time order:
+    #actions, (time num den, 0 call / 1 the peer's answer is delivered / 2 connection lost, id,
+    request_count)*; then per caller 0..n-1: written? write time (num den), outcome (0 result
+    1 error 2 TaskTimeout 3 cancelled; 9 none), outcome time (num den).  Times count from the start of
+    the scenario."""
+    rows = []
+    saved = mods['session'].time
+    try:
+        # (L, callers, timeout, scenario, scenario time): 0 silent peer; 1 every request is answered
+        # `time` after it was written; 2 silent peer, connection lost at `time`; 3 like 1 but only
+        # even callers are answered
+        for L, n, tmo, scen, st in ((50, 1, 2.0, 0, 0.0), (50, 3, 0.5, 0, 0.0), (2, 3, 2.0, 0, 0.0), (1, 3, 0.5, 0, 0.0),
+                                    (2, 5, 2.0, 0, 0.0), (50, 2, 2.0, 1, 0.75), (2, 4, 2.0, 1, 0.25), (1, 3, 2.0, 1, 1.5),
+                                    (50, 2, 2.0, 2, 1.25), (2, 4, 2.0, 2, 0.5), (1, 2, 30.0, 2, 7.0), (3, 3, 30.0, 0, 0.0),
+                                    (2, 5, 2.0, 3, 0.75), (1, 4, 4.0, 3, 1.0), (3, 7, 2.0, 2, 2.5)):
+            bench = lp.VBench()
+            try:
+                c = Client(mods, bench, dict(sent_request_timeout=tmo, recalibrate_count=1, target_response_time=3.0))
+                if L != int(c.lim.max_concurrent):
+                    settle(c, bench, L)
+                c.s.recalibrate_count = 10 ** 6
+                t0 = bench.loop.time()
+                for k in range(n):
+                    c.delay_of[k] = st if scen == 1 or (scen == 3 and k % 2 == 0) else None
+                    c.start(k, 1)
+                bench.idle()
+                if scen == 2:
+                    bench.advance(st)
+                    c.lose()
+                bench.advance(tmo * (n + 2) + st * (n + 2) + 1)
+                row = [L] + lp.rat_ints(tmo) + [len(c.env_log)]
+                for t, kind, key, count in sorted(c.env_log, key=lambda e: e[0]):
+                    row += lp.rat_ints(t - t0) + [kind, key, count]
+                row.append(n)
+                for k in range(n):
+                    w = c.written.get(k)
+                    row += ([1] + lp.rat_ints(w - t0)) if w is not None else [0, 0, 1]
+                    kind, t = c.outcome.get(k, (9, t0))
+                    row += [kind] + lp.rat_ints(t - t0)
+                rows.append(row)
+            finally:
+                bench.close()
+    finally:
+        mods['session'].time = saved
+    return rows
+
+
+def outgoing_initial(mods):
+    bench = lp.Bench()
+    try:
+        _p, _t, s = bench.session(mods, mods['session'].RPCSession, 'client')
+        _inc, out = lp.find_limiters(s)
+        return int(out.max_concurrent) if out is not None else 0
+    finally:
+        bench.close()
 
 
 def extract(repo):
-    _refresh_c13_facts(repo)
-    session = common.fresh_import(repo, 'aiorpcx.session')
-    tree = common.parse(repo, 'aiorpcx/session.py')
+    mods = _mods(repo)
+    session = mods['session']
     R = session.RPCSession
     f = {}
     f['sent_request_timeout'] = R.sent_request_timeout
     f['target_response_time'] = R.target_response_time
     f['recalibrate_count'] = R.recalibrate_count
     f['max_send_delay'] = session.SessionBase.max_send_delay
-    out_init = None
-    node = common.find(tree, 'RPCSession.__init__')
-    for n in ast.walk(node) if node else []:
-        if isinstance(n, ast.Assign) and lc.strip_self(n.targets[0]) == '_outgoing_concurrency' \
-                and isinstance(n.value, ast.Call) and n.value.args \
-                and isinstance(n.value.args[0], ast.Constant):
-            out_init = n.value.args[0].value
-    f['outgoing_initial'] = out_init
-    node = common.find(tree, 'RPCSession._recalc_concurrency')
-    f['recalc_paths'] = lc.sym_paths(node) if node else []
-    # _send_concurrent
-    node = common.find(tree, 'RPCSession._send_concurrent')
-    f['send_concurrent_guard'] = ''
-    f['await_under'] = ''
-    f['finally_inside_guard'] = False
-    f['finally_paths'] = []
-    if node is not None:
-        top = [st for st in node.body if not (isinstance(st, ast.Expr) and isinstance(st.value, ast.Constant))]
-        if len(top) == 1 and isinstance(top[0], ast.AsyncWith):
-            aw = top[0]
-            f['send_concurrent_guard'] = ','.join(lc.strip_self(it.context_expr) for it in aw.items)
-            for st in aw.body:
-                if isinstance(st, ast.Try) and st.finalbody:
-                    f['finally_inside_guard'] = True
-                    # what awaits the future, and under which timeout
-                    for inner in ast.walk(ast.Module(body=st.body, type_ignores=[])):
-                        if isinstance(inner, ast.AsyncWith):
-                            rets = [n for n in ast.walk(inner) if isinstance(n, ast.Return)
-                                    and isinstance(n.value, ast.Await)]
-                            if rets:
-                                f['await_under'] = ','.join(lc.strip_self(it.context_expr) for it in inner.items)
-                    # the finally block as a function of (message, future, request_count)
-                    fn = ast.FunctionDef(name='f', args=node.args, body=st.finalbody, decorator_list=[],
-                                         returns=None, type_comment=None, lineno=0, col_offset=0)
-                    f['finally_paths'] = lc.sym_paths(fn)
-    node = common.find(tree, 'RPCSession.connection_lost')
-    f['connection_lost_body'] = lc.body_nf(node.body) if node else []
+    f['outgoing_initial'] = outgoing_initial(mods)
+    f['flow_rows'] = [flat_flow_row(r) for r in flow_rows(mods)]
+    f['outcome_rows'] = outcome_rows(mods)
     f['fingerprints'] = common.fingerprints(repo, {
         'aiorpcx/session.py': ['RPCSession.__init__', 'RPCSession._recalc_concurrency',
                                'RPCSession._send_concurrent', 'RPCSession.connection_lost',
                                'RPCSession.send_request', 'BatchRequest.__aexit__',
-                               'SessionBase._send_message', 'Concurrency.__aenter__',
-                               'Concurrency.__aexit__', 'Concurrency._retarget_semaphore',
-                               'Concurrency.set_target']})
+                               'SessionBase._send_message', 'Concurrency']})
     return f
 
 
 def render(f):
     return (
-        '/-! GENERATED by tools/facts/c20.py from /repo on every run - do not edit. -/\n'
+        'import Aiorpcx.C13.IntRows\n'
+        '/-! GENERATED by tools/facts/c20.py by RUNNING the current tree - do not edit. -/\n'
         'namespace Aiorpcx.Facts.C20\n'
-        f'def outgoingInitial : Nat := {int(f["outgoing_initial"]) if isinstance(f["outgoing_initial"], int) else 0}\n'
+        f'/-- `max_concurrent` of the outgoing limiter of a fresh client `RPCSession` -/\n'
+        f'def outgoingInitial : Nat := {int(f["outgoing_initial"])}\n'
         f'def sentRequestTimeout : Rat := {q(f["sent_request_timeout"])}\n'
         f'def targetResponseTime : Rat := {q(f["target_response_time"])}\n'
         f'def recalibrateCount : Nat := {int(f["recalibrate_count"])}\n'
         f'def maxSendDelay : Rat := {q(f["max_send_delay"])}\n'
-        f'def recalcPaths : List String := {lc.lean_strs(f["recalc_paths"])}\n'
-        f'def sendConcurrentGuard : String := {lc.lean_str(f["send_concurrent_guard"])}\n'
-        f'def awaitUnder : String := {lc.lean_str(f["await_under"])}\n'
-        f'def finallyInsideGuard : Bool := {"true" if f["finally_inside_guard"] else "false"}\n'
-        f'def finallyPaths : List String := {lc.lean_strs(f["finally_paths"])}\n'
-        f'def connectionLostBody : List String := {lc.lean_strs(f["connection_lost_body"])}\n'
+        '/-- send operations answered one after the other on a live client session: target_response_time\n'
+        '    (num den), recalibrate_count, #steps, steps (request_count, response time num den), then the\n'
+        '    outgoing limit after each completion -/\n'
+        f'def flowTable : List (List Int) := {lp.lean_int_rows(f["flow_rows"])}\n'
+        '/-- what callers get and when, on a live client session whose outgoing limiter was brought to\n'
+        '    limit L first: L, sent_request_timeout (num den), #environment actions, (time num den,\n'
+        '    0 call / 1 answer delivered / 2 connection lost, id, request_count)*, #callers, per caller:\n'
+        '    written?, write time (num den), outcome (0 result 1 error 2 TaskTimeout 3 cancelled),\n'
+        '    outcome time (num den); times count from the start of the scenario -/\n'
+        f'def outcomeTable : List (List Int) := {lp.lean_int_rows(f["outcome_rows"])}\n'
         'end Aiorpcx.Facts.C20\n')
